@@ -219,7 +219,7 @@ fn main() {
 	let mut check = Check::from_args(
 		"C02",
 		"exploration",
-		"sources: container readers over fixtures (written by the repository's writers or the harness's independent encoders incl. sparse/partial versatiles blocks, PMTiles runs/leaves, MBTiles views), the converting reader (4 flag combinations, recompression, zoom selection), pipelines rendered to VPL (from_container, from_debug, from_overlayed, from_vectortiles_merged, filter_zoom, filter_bbox, nested to depth 3); boxes positioned relative to the advertised coverage (inside, overlapping an edge, outside, containing, row/column, whole 256-blocks +-1, both empty encodings, levels without data), exhaustively all boxes at zoom <= 2; oracle: stream terminates, every delivered tile is inside the box, unique and equal to the lookup, and every coordinate of the box (all of them up to 4096, else all model-tile coordinates and corners) with a lookup result is delivered; non-trivial = box partially overlapping / containing the coverage or on a level without data, on a source with >= 2 distinct tiles",
+		"sources: container readers over fixtures (written by the repository's writers or the harness's independent encoders incl. sparse/partial versatiles blocks, PMTiles runs/leaves, MBTiles views), the converting reader (4 flag combinations, recompression, zoom selection), pipelines rendered to VPL (from_container, from_debug, from_overlayed, from_vectortiles_merged, filter_zoom, filter_bbox, nested to depth 3); boxes positioned relative to the advertised coverage (inside, overlapping an edge, outside, containing, row/column, whole 256-blocks +-1, both empty encodings, levels without data), exhaustively all boxes at zoom <= 2, and one versatiles block with > 64 MiB of tile data; oracle: stream terminates, every delivered tile is inside the box, unique and equal to the lookup, and every coordinate of the box (all of them up to 4096, else all model-tile coordinates and corners) with a lookup result is delivered; non-trivial = box partially overlapping / containing the coverage or on a level without data, on a source with >= 2 distinct tiles",
 	);
 	check.assume("multi-thread tokio runtime with 3 workers per runner thread; lookups with empty payloads are not distinguished from absent tiles");
 	vt::engine::watchdog(3600);
@@ -239,6 +239,29 @@ fn main() {
 		}
 	}
 	check.enumerate("exhaustive-zoom<=2", cases, false, oracle);
+
+	// one versatiles block with more than 64 MiB of tile data (the reader splits its range reads
+	// at that size and at gaps of more than 32 KiB): written by the repository and by the harness
+	let big = vt::model::SetSpec {
+		tag: "big".into(),
+		levels: vec![vt::model::LevelSpec { z: 9, x0: 256, y0: 256, w: 34, h: 34, shape: vt::model::Shape::Dense, seed: check.seed as u32 }],
+		pay: vt::model::Pay::Random { lo: 60_000, hi: 72_000 },
+		format: vt::model::Fmt::Png,
+		comp: Comp::None,
+		really_compressed: false,
+		advert: vt::model::Advert::Tight,
+		meta: None,
+	};
+	let big_boxes = vec![
+		BoxChoice::Exact { z: 9, x0: 256, y0: 256, x1: 289, y1: 289, empty: 0 },
+		BoxChoice::Exact { z: 9, x0: 258, y0: 256, x1: 259, y1: 289, empty: 0 },
+		BoxChoice::Exact { z: 9, x0: 0, y0: 270, x1: 511, y1: 289, empty: 0 },
+	];
+	let big_cases: Vec<Case> = [LeafKind::Repo(Target::Versatiles), LeafKind::Enc(Target::Versatiles, check.seed as u32)].into_iter().map(|kind| Case { src: Src::Leaf(Leaf { spec: big.clone(), kind }), boxes: big_boxes.clone() }).collect();
+	let w = check.workers;
+	check.workers = 2;
+	check.enumerate("block>64MiB", big_cases, false, oracle);
+	check.workers = w;
 
 	check.phase("sampled", check.cases(6000, 150_000), strategy, oracle);
 	check.finish();
